@@ -210,6 +210,8 @@ def verb_programs(built):
         ("mutate-bool-arith", lambda: a >> pdt.mutate(s=a.b + a.b, t2=a.b.sum(), u=a.i8 / a.i8, v=a.i8 // a.i8, w=a.i8.mean(), m=a.i8.max(), c=a.s.count(), n=pdt.count())),
         ("summarize", lambda: a >> pdt.summarize(s8=a.i8.sum(), m8=a.i8.mean(), mx=a.f32.max(), mn=a.s.min(), an=a.b.any(), bs=a.b.sum(), c=a.d.count(), n=pdt.count(), md=a.d.max(), mt=a.t.min())),
         ("summarize-grouped", lambda: a >> pdt.group_by(a.b) >> pdt.summarize(s=a.u16.sum(), m=a.i64.mean(), x=a.f64.min())),
+        ("summarize-grouped-mixed", lambda: a >> pdt.group_by(a.k) >> pdt.summarize(m=a.k + a.i8.sum(), c=a.k < a.i64.max(), w=pdt.when(a.i8.sum() > 3).then(a.k).otherwise(0),
+                                                                                s=a.s.max(), f=a.k * a.f32.mean())),
         ("summarize-empty", lambda: a >> pdt.filter(a.k > 99) >> pdt.summarize(s=a.i8.sum(), m=a.f32.mean(), c=a.s.count(), mx=a.d.max())),
         ("join-left-padding", lambda: a >> pdt.left_join(b, a.k == b.k, suffix="_r")),
         ("join-full-padding", lambda: a >> pdt.full_join(b, a.k == b.k, suffix="_r")),
